@@ -3,7 +3,7 @@
 import json, glob
 print("| check | tier | cases | oracle comparisons | distinct non-trivial | exhaustive sub-spaces | rules | wall s |")
 print("|---|---|---|---|---|---|---|---|")
-for f in sorted(glob.glob('/verif/evidence/C*.json')):
+for f in sorted(glob.glob((__import__('sys').argv[1] if len(__import__('sys').argv) > 1 else '/verif/evidence') + '/C*.json')):
     e = json.load(open(f)); c = e['coverage']
     rules = ', '.join(sorted(c.get('per_rule', {}).keys())) or ('literal programs, pass-through programs' if e['property_id']=='C19' else '')
     if len(rules) > 110: rules = rules[:107] + '...'
